@@ -264,8 +264,8 @@ pub fn subs() -> Vec<Box<dyn Sub>> {
         name: "load",
         rule: "BootInformation::load on a guarded mapping of max(8, r8(total size)) bytes; enumerated: null, every total-size word 0..=72 x 8 end-tag variants x 2 reserved words, every multiple of 8 up to 1024 (thorough 4096) with its 7 lower neighbours x {valid, wrong-type} end tag; generated: sizes up to 1 MiB, random reserved/last-8-bytes. Oracle: the statement's precedence + start/end/size equalities. Non-trivial = not (valid size, valid end tag, reserved 0); distinct by (size word, reserved, last 8 bytes)",
         profiles: Profiles::Both,
-        quick: 3000,
-        thorough: 60000,
+        quick: 12000,
+        thorough: 300000,
         strategy,
         enumerate: Some(enumerate),
         enum_exhaustive: false,
